@@ -6,7 +6,7 @@ _reg('blake', ['B1', 'B2', 'B3', 'B4', 'B5'])
 _reg('argon', ['G1', 'G2', 'G4'])
 _reg('aes', ['A1', 'A2', 'A3', 'A5', 'A4'])
 _reg('isa', ['I1', 'I4', 'I6'])
-_reg('jit', ['J1', 'X0'])
+_reg('jit', ['J1', 'X0', 'X1'])
 _reg('recip', ['R1', 'R2', 'R3'])
 _reg('api', ['H1', 'D2', 'I7'])
 _reg('life', ['H6', 'H7', 'H3', 'K1'])
@@ -30,7 +30,7 @@ PROPS = {
  'C05': dict(level='other', lemmas=['I1', 'I7', 'I8'],
    files=['src/bytecode_machine.cpp', 'src/bytecode_machine.hpp', 'src/instruction.hpp', 'src/virtual_machine.cpp', 'src/vm_interpreted.cpp', 'src/intrin_portable.h', 'src/instructions_portable.cpp', 'src/common.hpp', 'src/configuration.h', 'doc/specs.md'],
    explanation='TODO', trusted=['doc/specs.md chapter 4-5 transcription in spec/vm_ref.py'], outside=[]),
- 'C04': dict(level='translation_validation', lemmas=['X0', 'J1', 'J3', 'J4', 'A4', 'I1'],
+ 'C04': dict(level='translation_validation', lemmas=['X0', 'X1', 'J1', 'J3', 'J4', 'A4', 'I1'],
    files=['src/jit_compiler_x86.cpp', 'src/jit_compiler_x86.hpp', 'src/jit_compiler_x86_static.S', 'src/bytecode_machine.cpp', 'src/bytecode_machine.hpp', 'src/vm_interpreted.cpp', 'src/vm_compiled.cpp', 'src/instruction_weights.hpp'],
    explanation='TODO', trusted=['x86-64 semantics of engine/x86sem.py (Intel SDM transcription for the ~60 forms used)', 'doc/specs.md chapter 5 transcription'], outside=[]),
  'C18': dict(level='other', lemmas=['R1', 'R2', 'R3'],
